@@ -852,3 +852,177 @@ def fabric_start_differential(kwargs, n, seed=0):
     elif sorted(i for i, _ in obs["threads_running"]) != model_running:
       bad.append({"schedule": k, "why": "model running %s, real %s" % (model_running, obs["threads_running"])})
   return {"schedules": n, "visible_operations": ops, "disagreements": bad}
+
+
+# ---- rejecting scenario (C31 under every interleaving) ----------------------------------------------------------------------------
+class RealRejecting:
+  def __init__(self, sc, sysm):
+    from vf import hosts
+    info = sc.info
+    cap = info["capacity"]
+    hsm, ao = hosts.install_stubs(capacity=4)
+    import miros.event as ev
+    vis, _, _ = R.visibility_from(sysm)
+    self.d = d = R.Director(vis)
+    self.info = info
+    self.ao = ao
+    rs, signals = ev.return_status, ev.signals
+    self.log = []
+    me = self
+
+    def state(chart, e):
+      if e.signal in (signals.ENTRY_SIGNAL, signals.INIT_SIGNAL, signals.EXIT_SIGNAL):
+        return rs.HANDLED
+      if e.signal_name.startswith(("W_", "P")):
+        me.log.append(e.signal_name)
+        return rs.HANDLED
+      chart.temp.fun = chart.top
+      return rs.SUPER
+    ao.ActiveObject.QUEUE_SIZE = cap
+    self.obj = obj = ao.ActiveObject(name="replay")
+    obj.start_at(state)
+    ld = obj.locking_deque
+    self.pend = [ev.Event(signal="P%d" % i) for i in range(info["pending"])]
+    ld.deque = R.make_deque(d, "D", 4, list(self.pend))
+    ld.locking_queue = R.make_queue(d, "Q", 4)
+    for _ in self.pend:
+      ld.locking_queue.put("ready")
+    self.task = R.make_event(d, "task_event", True)
+    self.fabric = R.make_event(d, "fabric_event", True)
+    obj.activeobject_task_event = self.task
+    obj.posted_events_queue = R.make_deque(d, "tracked", cap)
+    counter = [0]
+    self.real_event_cls = ao.ThreadEvent
+    self.real_pp = ao.pp
+    ao.pp = lambda x: None
+
+    def old_flag():
+      i = counter[0]
+      counter[0] += 1
+      return R.make_event(d, "old%d.run" % i, False)
+    ao.ThreadEvent = old_flag
+
+    class FakeTime:
+      @staticmethod
+      def sleep(p):
+        d.before("time", "sleep")
+    ao.time = FakeTime
+    for i in range(cap):
+      obj.post_fifo(ev.Event(signal="W_OLD%d" % i), period=5, times=0, deferred=True)     # thread stand-ins: never run
+    self.old_flags = [r.task_run_event for r in obj.posted_events_queue]
+    self.new_flags = []
+
+    def new_flag():
+      f = R.make_event(d, "new.run", False)
+      self.new_flags.append(f)
+      return f
+    ao.ThreadEvent = new_flag
+    made = []
+
+    class NewThread:
+      def __init__(self, target=None, args=(), kwargs=None, daemon=None, name=None):
+        self.target, self.args = target, args
+        self.real = None
+        made.append(self)
+
+      def start(self):
+        d.before("new.thread", "start")
+
+        def run():
+          d.register_current(2)
+          try:
+            self.target(*self.args)
+            d.before("new.thread", "finish")
+          finally:
+            d.done(2)
+        self.real = threading.Thread(target=run, daemon=True)
+        self.real.start()
+
+      def is_alive(self):
+        return self.real is not None and self.real.is_alive()
+    self.made = made
+    self.saved_thread = ao.Thread
+    ao.Thread = NewThread
+    self.ev_new = ev.Event(signal="W_REJECTED")
+    self.outcome = {}
+    self.bodies = {0: self.caller_body(), 1: lambda: obj.run_event(self.task, self.fabric, obj.queue)}
+
+  def caller_body(self):
+    info = self.info
+
+    def body():
+      post = self.obj.post_lifo if info["kind"] == "lifo" else self.obj.post_fifo
+      try:
+        post(self.ev_new, period=1.0, times=info["times"], deferred=info["deferred"])
+        self.outcome["accepted"] = True
+      except self.ao.ActiveObjectOutOfPostedEventResources:
+        self.outcome["rejected"] = True
+      except BaseException as ex:      # noqa
+        self.outcome["error"] = "%s: %s" % (type(ex).__name__, ex)
+    return body
+
+  def observe(self):
+    import collections
+    dq = list(collections.deque.__iter__(self.obj.locking_deque.deque))
+    return {"outcome": dict(self.outcome), "rejected_event_in_queue": sum(1 for e in dq if e is self.ev_new),
+            "rejected_event_dispatched": self.log.count("W_REJECTED"), "threads_created": len(self.made),
+            "old_flags_up": [threading.Event.is_set(f) for f in self.old_flags], "new_flag_up": [threading.Event.is_set(f) for f in self.new_flags],
+            "tracked": len(list(collections.deque.__iter__(self.obj.posted_events_queue)))}
+
+  def cleanup(self, threads):
+    self.d.release_all()
+    for f in self.new_flags + self.old_flags:
+      threading.Event.clear(f)
+    threading.Event.clear(self.task)
+    self.obj.locking_deque.locking_queue.put("wake")
+    for t in threads.values():
+      t.join(timeout=0.3)
+    ao = self.ao
+    ao.Thread = self.saved_thread
+    ao.ThreadEvent = self.real_event_cls
+    ao.pp = self.real_pp
+    ao.time = __import__("time")
+    ao.ActiveObject.QUEUE_SIZE = 500
+
+
+def rejecting_replay(sc, sysm, res, states, infos, loop):
+  real = RealRejecting(sc, sysm)
+  threads = {}
+  try:
+    ok, detail, threads = R.run_threads(real.d, real.bodies, triples(infos))
+    time.sleep(0.05)
+    obs = real.observe()
+  finally:
+    real.cleanup(threads)
+  return {"matched": ok, "detail": detail, "real": obs}
+
+
+def rejecting_differential(kwargs, n, seed=0):
+  from vf.e2.check import build
+  rnd = random.Random(seed)
+  bad = []
+  ops = 0
+  for k in range(n):
+    sc, sysm = build("rejecting", kwargs)
+    st = sysm.initial()
+    infos = []
+    for _ in range(80):
+      en = sysm.enabled_concrete(st)
+      if not en:
+        break
+      st, info = sysm.step_concrete(st, rnd.choice(en))
+      infos.append(info)
+    real = RealRejecting(sc, sysm)
+    threads = {}
+    try:
+      ok, detail, threads = R.run_threads(real.d, real.bodies, triples(infos))
+      time.sleep(0.02)
+      obs = real.observe()
+    finally:
+      real.cleanup(threads)
+    ops += len(triples(infos))
+    if not ok:
+      bad.append({"schedule": k, "why": detail})
+    elif bool(obs["outcome"].get("rejected")) != bool(st["g.rejected"]) or obs["tracked"] != st["tracked.len"]:
+      bad.append({"schedule": k, "why": "model rejected=%s tracked=%s, real %s" % (st["g.rejected"], st["tracked.len"], obs)})
+  return {"schedules": n, "visible_operations": ops, "disagreements": bad}
